@@ -25,3 +25,8 @@ func VerifSetWaitAcquireTimeout(d time.Duration) { waitAcquireTimeout = d }
 func VerifSetMeasuredRate(w RemoteFlowControlWrapper, r float64) {
 	util.VerifSetRate(w.(*remoteWrapper).flowControlCache.meter, r)
 }
+
+// VerifSetMeasuredPeak sets the in-flight peak the schema's meter reports (see util.VerifSetMaxInflight).
+func VerifSetMeasuredPeak(w RemoteFlowControlWrapper, n int32) {
+	util.VerifSetMaxInflight(w.(*remoteWrapper).flowControlCache.meter, n)
+}
